@@ -15,7 +15,7 @@ LEVEL = "exploration"
 RULE = ("hostile inputs - random bytes (several distributions, 0..64 KiB), valid streams with bit flips / byte inserts / deletes "
         "/ splices / truncation, and structure-aware hostile streams from the independent wire encoder (declared frame, row and "
         "string lengths up to 2^63, table sizes up to 2^32, 10^5 entries, quoted triples nested past the protobuf recursion "
-        "limit, options rows in odd places, stream names / strings holding format directives with huge field widths on error paths, version-2 streams declaring one prefix label 3-200 times with different namespaces, gzip/zlib/bz2/xz/deflate members that would inflate to 0.3-64 MB, options rows with enum/version values the schema does not name, well-formed streams whose strings (language tag, lexical form, datatype, name, prefix, blank-node label, stream name, namespace name) are long single-class runs ending in one odd character, 10^3..10^6 empty frames alone and in front of a well-formed frame (3*10^5 of them always through all six entry points, 10^6 through two), invalid UTF-8, unknown fields, groups) - are fed from BytesIO, "
+        "limit, options rows in odd places, stream names / strings holding format directives with huge field widths on error paths, version-2 streams declaring one prefix label 3-200 times with different namespaces, gzip/zlib/bz2/xz/deflate members that would inflate to 0.3-64 MB, options rows with enum/version values the schema does not name, well-formed streams whose strings (language tag, lexical form, datatype, name, prefix, blank-node label, stream name, namespace name) are long single-class runs ending in one odd character, 10^3..10^6 empty frames alone and in front of a well-formed frame (3*10^5 of them always through all six entry points, 10^6 through two), invalid UTF-8, unknown fields, groups, one 16-64 KiB prefix (or name) entry combined with thousands of short entries overwriting 8 slots of the other table - through the entry points that keep no statement) - are fed from BytesIO, "
         "real files and non-seekable raw / buffered sources to the six parse entry points inside a watchdogged child process with faulthandler. Per input the "
         "child journals start/end, outcome, CPU time, a logical step count (sys.monitoring PY_START inside pyjelly) and the "
         "growth of the resident high-water mark. Violations: interpreter killed by a signal; a non-Exception BaseException; "
@@ -113,7 +113,7 @@ def hostile(rng):
     big = rng.choice([1 << 20, (1 << 31) - 1, 1 << 31, 1 << 32, 1 << 40, 1 << 62, (1 << 63) - 1, (1 << 64) - 1])
     kind = rng.choice(["frame-length", "row-length", "string-length", "table-size", "many-entries", "deep-nesting",
                        "odd-options", "empty-frames", "bad-utf8", "unknown-fields", "many-metadata", "nondelimited-huge",
-                       "entry-id-huge", "ref-huge", "options-repeat-flood", "awkward-strings", "awkward-strings", "enum-values", "compressed-bomb", "namespace-redeclared", "format-directive"])
+                       "entry-id-huge", "ref-huge", "options-repeat-flood", "awkward-strings", "awkward-strings", "enum-values", "compressed-bomb", "namespace-redeclared", "format-directive", "long-entry-many-slots"])
     head = wire.enc_stream([{"rows": [("options", _opts())]}], True)
     if kind == "frame-length":
         return kind, rng.choice([b"", head]) + wire.enc_varint(big) + rng.randbytes(rng.randint(0, 40))
@@ -253,8 +253,32 @@ def hostile(rng):
                 ("triple", {"s": ("iri", rng.choice([0, 9, (1 << 32) - 1]), rng.choice([17, (1 << 32) - 1])),
                             "p": ("bnode", "b"), "o": ("lit", "x", "dt", rng.choice([0, 9, (1 << 32) - 1]))})]
         return kind, wire.enc_stream([{"rows": rows}], True)
+    if kind == "long-entry-many-slots":
+        return kind, long_entry_many_slots(rng.choice([16, 32, 48]) << 10, rng.choice([1000, 3000]), rng.choice(["prefix", "prefix", "name"]))
     rows = [("options", _opts())] * rng.choice([100, 5000])
     return "options-repeat-flood", wire.enc_stream([{"rows": rows}], True)
+
+
+def long_entry_many_slots(length: int, n: int, which: str) -> bytes:
+    """ONE long entry (tens of KiB) in one table and n short entries overwriting 8 slots of the other, each used by one
+    statement, 10 statements per frame: every statement's IRI is a new string of `length` bytes, but a consumer that drops
+    the statements it gets needs a few of them at a time - the format's own amplification, n x length, is only legitimate
+    for a caller who KEEPS the statements (parse_jelly_to_graph), never inside the parser."""
+    long_ = "http://e/" + "a" * length + "/"
+    frames = []
+    rows = [("options", _opts(max_name_table_size=8, max_prefix_table_size=8)),
+            (which, {"id": 1, "value": long_})]
+    for i in range(n):
+        slot = i % 8 + 1
+        rows.append(("name" if which == "prefix" else "prefix", {"id": slot, "value": f"n{i}"}))
+        iri = ("iri", 1, slot) if which == "prefix" else ("iri", slot, 1)
+        rows.append(("triple", {"s": iri, "p": iri, "o": ("bnode", "b")}))
+        if (i + 1) % 10 == 0:
+            frames.append({"rows": rows})
+            rows = []
+    if rows:
+        frames.append({"rows": rows})
+    return wire.enc_stream(frames, True)
 
 
 FIXED_DIRECTIVES = ["{physical_type:>300000000}", "{logical_type:>300000000}", "{0:>300000000}", "%300000000d"]
@@ -289,6 +313,8 @@ def make_inputs(rng, n: int, first_batch: bool = False) -> list:
             rows = [("options", _opts(**ext)), ("name", {"id": 0, "value": "urn:x"}),
                     ("triple", {"s": ("iri", 0, 0), "p": ("iri", 0, 1), "o": ("bnode", "b")})]
             cls, name, data = "hostile", "option-field-extreme", wire.enc_stream([{"rows": rows}], True)
+        elif first_batch and k == 2 + len(FIXED_DIRECTIVES) + len(FIXED_OPTION_EXTREMES):
+            cls, name, data = "hostile", "long-entry-many-slots", long_entry_many_slots(64 << 10, 4000, "prefix")
         elif x < .3:
             cls, data, name = "random", random_bytes(rng), "random"
         elif x < .65:
@@ -301,6 +327,8 @@ def make_inputs(rng, n: int, first_batch: bool = False) -> list:
             entries = list(ENTRY_NAMES) if k == 0 else ["generic:flat", "rdflib:grouped"]
         elif first_batch and k < 2 + len(FIXED_DIRECTIVES) + len(FIXED_OPTION_EXTREMES):
             entries = list(ENTRY_NAMES)
+        if name == "long-entry-many-slots":
+            entries = ["generic:flat", "rdflib:flat", "generic:grouped", "rdflib:grouped"]     # consumers that keep nothing
         out.append({"i": k, "class": cls, "name": name, "hex": data.hex(), "entries": entries,
                     "source": rng.choice(["file", "file", "bytesio", "bytesio", "bytesio", "raw-nonseekable", "buffered-nonseekable"]),
                     "len": len(data)})
